@@ -830,7 +830,7 @@ def check_T2(pid, tier, seed):
     cfgs = t2.CONC_CFGS_QUICK if tier == 'quick' else t2.CONC_CFGS_THOROUGH
     bins = t2.build_conc(cfgs)
     n = 360 if tier == 'quick' else 12000
-    if pid == 'C03' and tier == 'quick': n = 240
+    if pid == 'C03': n = 240 if tier == 'quick' else 5000     # every run is also checked against the happens-before model
     if broken: n *= 3
     keep = os.path.join(BUILD, 'cases_' + pid)
     jobs = []
@@ -848,7 +848,7 @@ def check_T2(pid, tier, seed):
         jobs.append((bins[c], sc, 's%d_l%d' % c, keep, (i % 4 == 0)))
     # systematic single-preemption sweeps over displacement programs (every scheduling point of the
     # inserting thread, the other threads run to completion there)
-    nsweep = {'C01': 9, 'C03': 15, 'C04': 3, 'C06': 2}[pid] * (1 if tier == 'quick' else 12)
+    nsweep = {'C01': 9, 'C03': 15, 'C04': 3, 'C06': 2}[pid] * (1 if tier == 'quick' else (5 if pid == 'C03' else 12))
     nsw = 0
     for i in range(nsweep):
         c = cfgs[i % len(cfgs)]
